@@ -530,3 +530,20 @@ Proof.
   repeat split; try (vm_compute; reflexivity).
   vm_compute. intros H. repeat (destruct H as [H|H]; [discriminate H|]). exact H.
 Qed.
+
+(* one object, two debug sections whose relocation sections link (sh_link) to DIFFERENT symbol
+   tables with different values at index 1: each section gets S from its own table *)
+Example C08_ex_two_symtabs :
+  let n_info := [46; 100; 101; 98; 117; 103; 95; 105; 110; 102; 111] in
+  let n_line := [46; 100; 101; 98; 117; 103; 95; 108; 105; 110; 101] in
+  let rel := encode_table true true false true [mkRent 0 1 1 0 0 0 0] in
+  let img := repeat 0 16 ++ rel ++ rel ++ encode_symtab true true [(0, 0); (0, 0x11)]
+                     ++ encode_symtab true true [(0, 0); (0, 0x22)] in
+  let s_info := mkSec n_info 1 0 8 0 0 in
+  let s_line := mkSec n_line 1 8 8 0 0 in
+  let secs := [mkSec [] 0 0 0 0 0; s_info; s_line;
+               mkSec (dot_rela ++ n_info) SHT_RELA 16 24 5 24; mkSec (dot_rela ++ n_line) SHT_RELA 40 24 6 24;
+               mkSec [] SHT_SYMTAB 64 48 0 24; mkSec [] 11 112 48 0 24] in
+  read_dwarf_section true true EM_X86_64 img secs s_info true = Ok [0x11; 0; 0; 0; 0; 0; 0; 0] /\
+  read_dwarf_section true true EM_X86_64 img secs s_line true = Ok [0x22; 0; 0; 0; 0; 0; 0; 0].
+Proof. split; vm_compute; reflexivity. Qed.
